@@ -154,7 +154,7 @@ func (m *MonC16) OnQuiescent(w *World, epoch int) {
 			if !reflect.DeepEqual(want, got) {
 				w.Report(Violation{Property: "C16", Rule: "template-stale", Sig: "differs", Msg: fmt.Sprintf("at quiescence the ObjectDeployment template of %s lists %v, a fresh render of the current spec %v gives %v", key, got, pkg["spec"], want)})
 			}
-			if img.NeedsColor {
+			if img.NeedsColor && img.Class == "needs-config" {
 				// the rendered content follows the config
 				color, _ := store.Get(pkg, "spec", "config", "color").(string)
 				holder := store.Obj{"kind": "ObjectSet", "metadata": od["metadata"], "spec": store.Get(od, "spec", "template", "spec")}
